@@ -3,7 +3,7 @@ import ast
 import itertools
 
 from vstat.loader import AnalysisError
-from vstat.terms import builder, show, SELF, NONE, G, alts, walk, mentions, phi, neg_test
+from vstat.terms import IT, builder, show, SELF, NONE, G, alts, walk, mentions, phi, neg_test
 from vstat.guards import path_conditions, literals, exception_name
 from vstat.cfg import cfg_of
 from vstat import algebra, scipyinfo
@@ -63,7 +63,7 @@ def _attr_stores(fn, b, pcs):
                 if pos is None and isinstance(st, ast.Assign):
                     v = b.term(st.value, st)
                 else:
-                    v = ("item", b.term(st.value, st), pos) if isinstance(st, ast.Assign) else ("aug",)
+                    v = IT(b.term(st.value, st), pos) if isinstance(st, ast.Assign) else ("aug",)
                 pc = pcs.of(st)
                 if v[0] == "ifexp":
                     out.append((tg.attr, v[2], pc + tuple(literals(v[1], True)), st))
